@@ -74,6 +74,7 @@ type Store struct {
 	GetFaults map[string]GetFault // by cid string
 	Alt       map[string][]byte   // replacement bytes for FaultCorrupt
 	AddFailAt map[int]string      // nth Add (0-based, counting every attempt) -> "error" | "lost"
+	ErrFlavor int                 // what FaultError answers with: 0 plain error, 1 wraps context.DeadlineExceeded, 2 wraps context.Canceled
 	addCount  int
 	// Visible: if non-nil, only writes with Seq < VisibleUpTo are readable (crash prefix views)
 	visibleUpTo int
@@ -260,6 +261,15 @@ func (s *Store) answer(c cid.Cid) (ipld.Node, error) {
 	case FaultNotFound:
 		return nil, ipld.ErrNotFound{Cid: c}
 	case FaultError:
+		// what kind of error a store reports is its own business: a plain I/O error, or one that wraps a context
+		// error of the store's own (a per-block time budget, a cancelled internal session) - the caller's context
+		// is alive all the same
+		switch s.ErrFlavor {
+		case 1:
+			return nil, fmt.Errorf("simstore: block %s: %w", c, context.DeadlineExceeded)
+		case 2:
+			return nil, fmt.Errorf("simstore: session closed: %w", context.Canceled)
+		}
 		return nil, errInjected
 	case FaultCorrupt:
 		b, ok = alt, true
